@@ -56,7 +56,7 @@ def r_layout(F, records=(), enums=(), constants=()):
                     diffs.append("field %d: found %s, format says %s" % (i, g, w))
             out.append(bad("R-LAYOUT", inst, site, q, req, "; ".join(diffs[:4])))
         # bit-fields whose whole range is data (indices, lengths, counts) must read back unsigned
-        for fname in sp.get("unsigned_bitfields", {}).get(q, []):
+        for fname in list(sp.get("unsigned_bitfields", {}).get(q, [])) + list(sp.get("unsigned_fields", {}).get(q, [])):
             fl = [f for f in r["fields"] if f["name"] == fname]
             if not fl:
                 continue
